@@ -38,4 +38,18 @@ def euclid [HasSqrt K] (ax ay bx b_y : K) : K :=
   let dy := ay - b_y
   HasSqrt.sqrt (dx * dx + dy * dy)
 
+/-! ### edge quantity → site vector (`Mesh.get_quantity_on_site`, tdgl/finite_volume/mesh.py:203-243)
+
+`np.bincount(vertices, weights)` with `vertices = concatenate([edges[:,0], edges[:,1]])` adds, for site `i`,
+first the edges whose first end is `i`, then those whose second end is `i`; `counts[i]` is the degree. -/
+
+/-- number of edge ends at site `i` (the `bincount` without weights) -/
+def degree (E : Nat) (e0 e1 : Nat → Nat) (i : Nat) : Nat :=
+  ((List.range E).filter (fun e => e0 e == i)).length + ((List.range E).filter (fun e => e1 e == i)).length
+
+/-- one Cartesian component: `(Σ_{e: e0 e = i} q_e d_e + Σ_{e: e1 e = i} q_e d_e) / degree / 2` -/
+def onSite [Div K] [NatCast K] [OfNat K 2] (E : Nat) (e0 e1 : Nat → Nat) (dir : Nat → K) (q : Nat → K) (i : Nat) : K :=
+  (sumTo (fun e => if e0 e = i then q e * dir e else 0) E + sumTo (fun e => if e1 e = i then q e * dir e else 0) E)
+    / (degree E e0 e1 i : K) / 2
+
 end Tdgl
